@@ -112,6 +112,21 @@ func ChannelCreateRaw(nres, nalt byte, port, proto uint16, cbName uint16, name [
 	return Packet(PktChannelCreate, append(b, name...))
 }
 
+// ChannelCreateAlt is a channel request with alternate resource names after the resource name.
+func ChannelCreateAlt(server string, alts []string, port uint16) []byte {
+	b := make([]byte, 6)
+	b[0], b[1] = 1, byte(len(alts))
+	binary.LittleEndian.PutUint16(b[2:], port)
+	binary.LittleEndian.PutUint16(b[4:], 3)
+	for _, n := range append([]string{server}, alts...) {
+		u := UTF16LE(n)
+		l := make([]byte, 2)
+		binary.LittleEndian.PutUint16(l, uint16(len(u)))
+		b = append(append(b, l...), u...)
+	}
+	return Packet(PktChannelCreate, b)
+}
+
 func ChannelCreate(server string, port uint16) []byte {
 	n := UTF16LE(server)
 	return ChannelCreateRaw(1, 0, port, 3, uint16(len(n)), n)
